@@ -11,6 +11,11 @@ CHECKS = {
             "with comment/blank/section-break insertions) and seeded random longer texts is parsed by the real parse_to_tree "
             "and by an independent reference parser; trees and refusals must agree. Held = agreed on every text observed.",
             "Trusted: vf/ref/offside.py as the meaning of the offside rule; errors compared by type.", "4/C05"),
+    "C07": ("reference-model monitor (word-level and regex-level restatement of the rule language) over exhaustive pattern x row scope and every shipped rule line",
+            "The production regexps, removal templates and reverse recognisers of compiled rules are observed on an exhaustive small scope of "
+            "patterns x rows, through all five text compilers, and on every rule line of every shipped rule file (rows synthesised from the line "
+            "plus near-miss mutations); match result and extracted key must equal the reference semantics. Held = agreed on all observed pairs.",
+            "Trusted: vf/ref/rulelang.py (R1) and vf/ref/deploy.py (R7). Shipped-line regex fragments are instantiated by an sre_parse sampler; unsampled lines are counted.", "4/C07"),
 }
 
 NOT_BUILT = "check not built yet in this round (runtime-monitoring design exists in DESIGN.md section 4)"
